@@ -937,7 +937,16 @@ impl<'a, Input: InputIndexer> MatchAttempter<'a, Input> {
 
                     Insn::EnterLoop(fields) => {
                         // Entering a loop, not re-entering it.
-                        self.s.loops.mat(fields.loop_id as usize).iters = 0;
+                        // If a previous entry left a nonzero count, we must be able to restore
+                        // it should we backtrack to before this entry (nested loops).
+                        let loop_data = self.s.loops.mat(fields.loop_id as usize);
+                        if loop_data.iters != 0 {
+                            self.bts.push(BacktrackInsn::SetLoopData {
+                                id: fields.loop_id,
+                                data: *loop_data,
+                            });
+                            loop_data.iters = 0;
+                        }
                         match self.run_loop(fields, pos, ip) {
                             Some(next_ip) => {
                                 ip = next_ip;
